@@ -158,6 +158,29 @@ fn exec_unit(input: &str, out: &mut CaseOut) {
             }
             Err(e) => out.fail("zinc_unwritable", format!("{x:?} {}: {e}", u.symbol())),
         }
+        // the Number into writers that take 1, 2, 3, 7 bytes per call: the text a Vec gets, or an error
+        if let Ok(full) = libhaystack::encoding::zinc::encode::to_zinc_string(&v) {
+            use libhaystack::encoding::zinc::encode::ToZinc;
+            struct Trickle(Vec<u8>, usize);
+            impl std::io::Write for Trickle {
+                fn write(&mut self, buf: &[u8]) -> std::io::Result<usize> {
+                    let n = buf.len().min(self.1);
+                    self.0.extend_from_slice(&buf[..n]);
+                    Ok(n)
+                }
+                fn flush(&mut self) -> std::io::Result<()> {
+                    Ok(())
+                }
+            }
+            for k in [1usize, 2, 3, 7] {
+                let mut w = Trickle(Vec::new(), k);
+                match v.to_zinc(&mut w) {
+                    Ok(()) if w.0 == full.as_bytes() => {}
+                    Ok(()) => out.fail("zinc_unit_lost", format!("into a writer that takes {k} bytes per call {x:?} {} is written as {:?}, into a Vec as {full:?}", u.symbol(), String::from_utf8_lossy(&w.0))),
+                    Err(_) => {}
+                }
+            }
+        }
         match serde_json::to_string(&v) {
             Ok(j) => {
                 check_number_back("json", x, u, serde_json::from_str::<Value>(&j).map_err(|e| e.to_string()), &j, out);
